@@ -764,14 +764,27 @@ def rule_stores(ctx: Ctx) -> None:
             "DiskCache.put never refreshes its in-memory LRU: get() keeps returning the previous value", "arguments of self.lru_cache.put not recognised", key="DiskCache.put lru")
 
 
+def rule_disk_levels(ctx: Ctx) -> None:
+    """The two-level DiskCache answers `in` from the same levels (in-memory LRU, then the file) that `get` reads from."""
+    disk = ctx.prog.cls(f"{MOD}.DiskCache")
+    levels = {}
+    for m in ("get", "__contains__"):
+        t = Scope(ctx, disk.methods[m]).text()
+        levels[m] = {lv for lv, pat in (("lru", "self.lru_cache"), ("file", "_get_file_path(")) if pat in t}
+    g, c = levels["get"], levels["__contains__"]
+    ctx.tri("9-levels", disk.methods["__contains__"], disk.methods["__contains__"].node, g == c and bool(g), bool(g) and bool(c) and g != c,
+            f"`in` and get() consult the same levels {sorted(g)}", f"get() answers from {sorted(g)} but `in` only looks at {sorted(c)}: a key can be reported absent while get() returns its value (or the reverse)", key="contains-vs-get")
+
+
 def check(ctx: Ctx) -> None:
-    for rule in (rule_stores, rule_lock, rule_invariant, rule_policy, rule_retire, rule_division, rule_pickle_guard, rule_disk_bound):
+    for rule in (rule_disk_levels, rule_stores, rule_lock, rule_invariant, rule_policy, rule_retire, rule_division, rule_pickle_guard, rule_disk_bound):
         ctx.run(rule)
 
 
 # ------------------------------------------------------------------------------ self-test corpus
 F = "pipefunc/cache.py"
 MUTANTS = [
+    Mutant("disk-contains-file-only", F, "        if self.with_lru_cache and key in self.lru_cache:\n            return True\n        file_path = self._get_file_path(key)\n        return file_path.exists()\n", "        return self._get_file_path(key).exists()\n", ("C14.9-levels",), why="round-2 seed C14/6"),
     Mutant("lru-get-test-outside-lock", F,
            "        with self._cache_lock:\n            if key not in self._cache_dict:\n                return None\n            value = self._cache_dict[key]\n            # Move key",
            "        if key not in self._cache_dict:\n            return None\n        with self._cache_lock:\n            value = self._cache_dict[key]\n            # Move key",
